@@ -689,12 +689,18 @@ def check_C18(res, tier, seed):
         if 'A' not in s1 or 'A' not in s2 or 'locks' not in free:
             res.violation('C18: scenario %s does not run sequentially: %s' % (sc, (s1['raw'] + ' | ' + s2['raw'] + ' | ' + free['raw'])[:300]), {'kind': 'thread', 'scenario': sc, 'raw': [s1['raw'], s2['raw'], free['raw']]})
             continue
+        seqs = [s1, s2]
+        if sc == 'closelast_openlogin':
+            # B makes two calls (open + login, then create): A's call may also be ordered between them
+            s3 = kthread.run(thr, c.lib, sc, -3)
+            if 'A' in s3:
+                seqs.append(s3)
         L = free['locks']
         ks = list(range(1, L + 1))
         if tier == 'quick' and len(ks) > 48 and sc != 'closelast_openlogin':      # that scenario's window is a single lock point: always all of them
             ks = sorted(set(ks[:16] + ks[-16:] + rng.sample(ks[16:-16], 16)))
         info[sc] = {'lock_points': L, 'explored': len(ks), 'sequential': [s1['raw'][:160], s2['raw'][:160]]}
-        jobs += [(thr, c.lib, sc, k, [s1, s2]) for k in ks] + [(thr, c.lib, sc, 0, [s1, s2])] * (3 if tier == 'quick' else 40)
+        jobs += [(thr, c.lib, sc, k, seqs) for k in ks] + [(thr, c.lib, sc, 0, seqs)] * (3 if tier == 'quick' else 40)
     with multiprocessing.Pool(16) as pool:
         results = pool.map(kthread.thread_case, jobs, chunksize=4)
     # free-running read-only stress: 8 threads, no schedule control (run a few at a time: each run is 8 busy threads)
